@@ -764,6 +764,11 @@ impl<T: Config> UdpProtocol<T> {
             let last_recv_frame = self.last_recv_frame();
             self.recv_inputs
                 .retain(|&k, _| k >= last_recv_frame - 2 * self.max_prediction as i32);
+        } else {
+            // We cannot decode this packet because the input it is encoded against is not stored
+            // (anymore). Still tell the sender what we have, so it can move its encoding base
+            // forward; otherwise a single lost ack could stall the input stream forever.
+            self.send_input_ack();
         }
     }
 
